@@ -36,6 +36,7 @@ def check(prog: Program, run: Run) -> None:
     compu.linear_forms(prog, run, "C03.R2", "C03.R1")
     compu.validity_vs_conversion(prog, run, "C03.R2")
     compu.conversion_guards(prog, run, "C03.R2")
+    compu.tolerances(prog, run, "C03.R1")
     compu.tabintp_forms(prog, run, "C03.R2", "C03.R2")
     compu.texttable_roles(prog, run, "C03.R2")
     compu.rounding(prog, run, "C03.R3")
